@@ -848,6 +848,64 @@ func runC11(c *runCtx) error {
 			}
 		}
 	}
+	// part C3: LARGE VALUES (40 / 80 KiB each, megabytes per batch): what is deleted must not
+	// depend on how many BYTES a batch carries.  The Coq side judges the same statement over the
+	// same keys with one-letter stand-ins for the values (the twin is value-size agnostic); the
+	// implementation is judged directly on the large store (final state = prior state minus the
+	// keys select returns = prior state minus the pairs the predicate denotes).
+	for _, sz := range []int{40 << 10, 80 << 10} {
+		for _, B := range []int{32, 3} {
+			small, large := [][2]string{}, [][2]string{}
+			for i := 0; i < 64; i++ {
+				k := fmt.Sprintf("q%02d", i)
+				letter := []string{"A", "B"}[i%2]
+				small = append(small, [2]string{k, letter})
+				large = append(large, [2]string{k, strings.Repeat(letter, sz)})
+			}
+			for _, pv := range []struct {
+				text string
+				sel  func(k, v string) bool
+			}{
+				{"key ^= 'q' & value ^= 'A'", func(k, v string) bool { return strings.HasPrefix(v, "A") }},
+				{"value ^= 'B'", func(k, v string) bool { return strings.HasPrefix(v, "B") }},
+				{"key >= 'q10' & value ^= 'A'", func(k, v string) bool { return k >= "q10" && strings.HasPrefix(v, "A") }},
+			} {
+				c11DeleteCase(e, c11Pred{pv.text, pv.sel}, c11Limit{}, small, true, B, "large-values-standin")
+				idx := len(e.cases) - 1
+				var want [][2]string
+				for _, kv := range large {
+					if !pv.sel(kv[0], kv[1]) {
+						want = append(want, kv)
+					}
+				}
+				st := newStore(large)
+				res := runQuery("delete where "+pv.text, st, true, B, true)
+				sel := runQuery("select * where "+pv.text, newStore(large), true, B, true)
+				selKeys := []string{}
+				for _, row := range sel.Rows {
+					if kb, ok := row[0].([]byte); ok {
+						selKeys = append(selKeys, string(kb))
+					}
+				}
+				e.count("large_values")
+				final := st.pairs()
+				keysOf := func(kvs [][2]string) []string {
+					out := make([]string, len(kvs))
+					for i, kv := range kvs {
+						out[i] = kv[0]
+					}
+					return out
+				}
+				rp := map[string]any{"query": "delete where " + pv.text, "batch_size": B, "store": fmt.Sprintf("64 pairs q00..q63, values %d bytes of 'A' (even) / 'B' (odd)", sz),
+					"keys_left": keysOf(final), "keys_required": keysOf(want), "keys_select_returns": selKeys, "outcome": fmt.Sprint(res.Err, res.Panic)}
+				if res.Err != nil || res.Panic != "" {
+					e.fail(idx, "the DELETE over large values failed: "+fmt.Sprint(res.Err, res.Panic), "C11/large-values-fails", rp)
+				} else if fmt.Sprint(keysOf(final)) != fmt.Sprint(keysOf(want)) || fmt.Sprint(keysOf(final)) != fmt.Sprint(keysOf(c11Minus(large, selKeys))) {
+					e.fail(idx, "with large values the final state is not the prior state minus the pairs the WHERE selects", "C11/large-values-delete-not-exact", rp)
+				}
+			}
+		}
+	}
 	// part D: statement sequences against a model map
 	nHist := 150
 	if deep {
